@@ -145,7 +145,8 @@ impl Compiler {
             // Empty block has completion value undefined
             self.builder.emit(Op::LoadUndefined { dst: 0 });
         } else {
-            // Compile statements
+            // Compile statements (function declarations of the block first)
+            self.emit_hoisted_functions(&block.body)?;
             for stmt in block.body.iter() {
                 self.compile_statement_impl(stmt)?;
             }
@@ -748,6 +749,11 @@ impl Compiler {
         // The case clauses share one block scope
         self.emit_push_scope();
 
+        // ... whose function declarations exist before any clause is chosen
+        for case in switch_stmt.cases.iter() {
+            self.emit_hoisted_functions(&case.consequent)?;
+        }
+
         // Push break context (switch uses the same break mechanism as loops)
         self.push_switch();
 
@@ -934,6 +940,7 @@ impl Compiler {
                 // Empty catch block has completion value undefined
                 self.builder.emit(Op::LoadUndefined { dst: 0 });
             } else {
+                self.emit_hoisted_functions(&handler.body.body)?;
                 for stmt in handler.body.body.iter() {
                     self.compile_statement_impl(stmt)?;
                 }
@@ -952,6 +959,7 @@ impl Compiler {
             self.builder.set_span(finalizer.span);
 
             // Compile finally block
+            self.emit_hoisted_functions(&finalizer.body)?;
             for stmt in finalizer.body.iter() {
                 self.compile_statement_impl(stmt)?;
             }
@@ -1015,10 +1023,34 @@ impl Compiler {
     }
 
     /// Compile a function declaration
+    /// Function declarations are hoisted: the functions declared directly in `statements`
+    /// are created before the first statement of the list runs.
+    pub(super) fn emit_hoisted_functions(
+        &mut self,
+        statements: &[Statement],
+    ) -> Result<(), JsError> {
+        for stmt in statements {
+            if let Statement::FunctionDeclaration(func) = stmt {
+                self.compile_function_declaration(func)?;
+                self.hoisted_functions
+                    .insert((func.span.start, func.span.end));
+            }
+        }
+        Ok(())
+    }
+
     fn compile_function_declaration(
         &mut self,
         func: &crate::ast::FunctionDeclaration,
     ) -> Result<(), JsError> {
+        // Already created at the top of its statement list
+        if self
+            .hoisted_functions
+            .remove(&(func.span.start, func.span.end))
+        {
+            return Ok(());
+        }
+
         self.builder.set_span(func.span);
 
         // Get function name
@@ -2861,7 +2893,8 @@ impl Compiler {
         // Push a new scope for the namespace body
         self.emit_push_scope();
 
-        // Compile the namespace body statements
+        // Compile the namespace body statements (function declarations first)
+        self.emit_hoisted_functions(&decl.body)?;
         for stmt in decl.body.iter() {
             self.compile_statement_impl(stmt)?;
 
